@@ -626,6 +626,13 @@ fn main() {
                     // max_sp is tracked by the Stack; reset happens through a fresh measurement below
                     let hw = vm.verif_stack().verif_max_sp();
                     obs.push((k, render(&r), hw));
+                    // the stack already grew between n = 10 and n = 10^3: that is the violation; the big run
+                    // would only repeat it (with call/cc in the loop it copies an ever larger stack per
+                    // iteration and takes gigabytes), so it is skipped
+                    if obs.len() == 2 && obs[1].2 > obs[0].2 {
+                        obs.push((sizes[2], "skipped-after-growth".to_string(), hw));
+                        break;
+                    }
                 }
                 // max_sp is monotone over the VM's life: equal values for n = 10, 10^3, big mean the
                 // larger runs did not exceed the smallest one's high-water mark
